@@ -3591,6 +3591,21 @@ func (t *Topic) notifySubChange(uid, actor types.Uid, isChan bool,
 			// Notify subscriber of topic's online status.
 			if t.cat == types.TopicCatGrp && !isChan {
 				t.presSingleUserOffline(uid, newWant&newGiven, "?unkn+en", nilPresParams, "", false)
+			} else if t.cat == types.TopicCatP2P {
+				// Muting told user1's 'me' to discard updates from user2 ("off+dis"). Tell it to accept them
+				// again and exchange the online status with user2 anew, the same way as for a new subscription.
+				uid2 := t.p2pOtherUser(uid)
+				pud2 := t.perUser[uid2]
+				mode2 := pud2.modeGiven & pud2.modeWant
+				if pud2.deleted {
+					mode2 = types.ModeInvalid
+				}
+				t.presSingleUserOffline(uid, newWant&newGiven, "?none+en", nilPresParams, "", false)
+				status := "?unkn"
+				if mode2.IsPresencer() {
+					status += "+en"
+				}
+				t.presSingleUserOffline(uid2, mode2, status, nilPresParams, "", false)
 			} else if t.cat == types.TopicCatMe {
 				// User is visible online now, notify subscribers.
 				t.presUsersOfInterest("on+en", t.userAgent)
